@@ -255,6 +255,9 @@ func (prop) Gen(r *rand.Rand, tier string) []core.Case {
 	}
 	genCbnt(g, scale)
 	genPsb(g, scale)
+	// every prefix of the list is a sample of all kinds (the tie-break search of ./check runs the
+	// thorough generator with a case limit)
+	r.Shuffle(len(g.cs), func(i, j int) { g.cs[i], g.cs[j] = g.cs[j], g.cs[i] })
 	return g.cs
 }
 
